@@ -29,14 +29,16 @@ def _on_alarm(*a):
 def _arm():
     # the limit counts the CPU time of this process, so that a loaded machine does not turn slow cases into hangs
     # (a bare `except:` in the package loader would even turn the alarm into exit code 1); wall clock is only a backstop
-    signal.signal(signal.SIGPROF, _on_alarm)
+    # user time only (ITIMER_VIRTUAL): a worker forked from a parent that holds millions of cases spends seconds of SYSTEM
+    # time on copy-on-write faults, which is not time of the code under test
+    signal.signal(signal.SIGVTALRM, _on_alarm)
     signal.signal(signal.SIGALRM, _on_alarm)
-    signal.setitimer(signal.ITIMER_PROF, CASE_TIMEOUT)
+    signal.setitimer(signal.ITIMER_VIRTUAL, CASE_TIMEOUT)
     signal.setitimer(signal.ITIMER_REAL, CASE_TIMEOUT * 40)
 
 
 def _disarm():
-    signal.setitimer(signal.ITIMER_PROF, 0)
+    signal.setitimer(signal.ITIMER_VIRTUAL, 0)
     signal.setitimer(signal.ITIMER_REAL, 0)
 
 
